@@ -69,6 +69,20 @@ for sid in sys.argv[1:]:
                       "non-native arrays, bool, zero-length or one-sample writes, unicode / bytes / empty strings and arrays in "
                       "metadata, unsorted or duplicated sample lists). Earlier rounds already used everything listed in the "
                       "previous paragraphs; a change that needs only one of those again is not interesting.\n\n")
+    if sid[3:] >= "l":
+        WAVE_NOTE += ("THIS ROUND, prefer one of these less-travelled areas: (1) the memory layout and type of the caller's "
+                      "arrays (Fortran order, negative strides, read-only, byte-swapped, a float array given to an integer "
+                      "writer, a 0-d array, an array of the wrong width) and the reader's conversions on the way back "
+                      "(sub_channel selection, read_vector / read_vector_1d / read_vector_c81d for each stored type, "
+                      "get_properties with and without sample=, properties cached across calls); (2) what one public call "
+                      "leaves behind when it raises half-way (the second block of rf_write_blocks, the third sample of a "
+                      "metadata write, a listing interrupted by a vanishing directory) and what the NEXT call on the same "
+                      "object then does; (3) things in the tree that are not the library's (foreign files and directories "
+                      "with similar names, symbolic links to channels, read-only files or directories, a properties file "
+                      "from an older version that lacks an attribute); (4) several threads of one process using the library "
+                      "at once; (5) the order in which a tool visits channels, subdirectories and files when names sort "
+                      "differently as text and as numbers. As before: small, realistic, passes the suite, and needs "
+                      "something specific to show.\n\n")
     txt = txt.replace("DELIVERABLES, all inside", WAVE_NOTE + "DELIVERABLES, all inside", 1) if WAVE_NOTE else txt
     if prev:
         div = ("DIVERSITY: other engineers already seeded these changes for the same property — " + "; ".join('"%s"' % s for s in prev) +
